@@ -681,6 +681,7 @@ pub struct Outcome {
     pub over_budget: bool,
     pub diverged: bool,
     pub stuck_threads: Vec<usize>,
+    pub stuck_pending: Vec<u32>,
     pub steps: u64,
     pub final_peek: Option<PeekLite>,
 }
@@ -738,7 +739,8 @@ pub fn control(n: usize) -> Outcome {
             }
         }
     }
-    let stuck_threads = (0..n).filter(|&i| s.st[i] != TSt::Done).collect();
+    let stuck_threads: Vec<usize> = (0..n).filter(|&i| s.st[i] != TSt::Done).collect();
+    let stuck_pending: Vec<u32> = stuck_threads.iter().map(|&i| s.pending[i].map(|p| p.kind).unwrap_or(0)).collect();
     let final_peek = s.peek_fn.as_ref().map(|f| f());
     s.peek_fn = None;
     Outcome {
@@ -750,6 +752,7 @@ pub fn control(n: usize) -> Outcome {
         over_budget: s.over_budget,
         diverged: s.diverged,
         stuck_threads,
+        stuck_pending,
         steps: s.steps,
         final_peek,
     }
